@@ -869,6 +869,10 @@ def _log_struct(c, base, t):
             if base == 10:
                 c.log_const_inverse[r.get_id()] = (r, t)     # 10**log10(const) gives the constant back exactly
             return r
+    if base == 10:
+        inv = c.pow10_inverse.get(t.get_id())      # log10(10**e) = e
+        if inv is not None:
+            return inv
     if z3.is_app(t) and c.log_product_rule:
         k = t.decl().kind()
         if k == z3.Z3_OP_MUL:
